@@ -158,3 +158,16 @@ theorem accRunH_accepts (m : OLTS σ ε ο) (cap fuel : Nat) (h : List ο)
   simp [OLTS.acceptsH, ← this, hne]
 
 end UtilModel
+
+namespace UtilModel
+variable {σ ε ο : Type}
+
+/-- All observable traces of the model satisfy `P` ⇒ every history accepted by the hash-indexed
+checker satisfies `P` (the end-to-end transfer used for every property). -/
+theorem acceptedH_satisfies [BEq σ] [Hashable σ] [DecidableEq ο] (m : OLTS σ ε ο) (P : List ο → Prop)
+    (hP : ∀ es s, m.run m.init es = some s → P (es.filterMap m.obs))
+    (cap fuel : Nat) (h : List ο) (ha : m.acceptsH cap fuel h = true) : P h := by
+  obtain ⟨es, s, hr, hp⟩ := acceptsH_sound m cap fuel h ha
+  exact hp ▸ hP es s hr
+
+end UtilModel
